@@ -108,6 +108,9 @@ type vecHistOpts struct {
 	fine       bool // near-duplicate coordinates (style 3 of histVec)
 	radii      bool // clusters of very different radius (style 4)
 	forceStyle int  // > 0: that style of histVec; < 0: style 0 (small pool, exact ties)
+	tailPattern bool // once, past the middle of the history: flush, remove the first two and the last-but-one of the
+	// stored vectors, flush again, search (a compaction that moves entries instead of copying them in
+	// order must not bring a removed one back)
 	nearMirror bool // with mirror: most on-plane queries are moved a few ulps off the plane (near ties, not ties)
 	mirror     bool // training sets, stored vectors and queries symmetric about the first axis: centroids come in
 	// mirror pairs, and a query with first coordinate 0 is exactly as far from one as from the other
@@ -146,6 +149,8 @@ func runVecHistory(r *rand.Rand, p vecParams, o vecHistOpts, t *Trace) *Case {
 	var resident []liveVec // ids ever added successfully (and still resident or removed)
 	removed := map[uint32]bool{}
 	var vscript []int   // forced next operations (values of x)
+	var vremoveQ []uint32 // targets of the scripted removals, in order
+	patternDone := false
 	var vremove uint32  // the id the next remove takes
 	nextID := uint32(1) // counts the adds; the id handed to the index is idOf(nextID)
 	// ids are the caller's: ascending, descending, or in no order at all (storage order is insertion order,
@@ -308,6 +313,20 @@ func runVecHistory(r *rand.Rand, p vecParams, o vecHistOpts, t *Trace) *Case {
 			}
 			emitDump()
 		}
+		if o.tailPattern && !patternDone && len(vscript) == 0 && step >= o.nops/2 {
+			var liveIDs []uint32
+			for _, lv := range resident {
+				if !removed[lv.id] {
+					liveIDs = append(liveIDs, lv.id)
+				}
+			}
+			if n := len(liveIDs); n >= 5 {
+				patternDone = true
+				vscript = []int{55, 45, 45, 45, 55, 99, 99}
+				vremoveQ = []uint32{liveIDs[0], liveIDs[1], liveIDs[n-2]}
+				t.Stat("vec.tail_pattern")
+			}
+		}
 		x := r.Intn(100)
 		if len(vscript) > 0 { // the follow-up of an id added while live: remove it, flush, look
 			x, vscript = vscript[0], vscript[1:]
@@ -393,6 +412,8 @@ func runVecHistory(r *rand.Rand, p vecParams, o vecHistOpts, t *Trace) *Case {
 			}
 			if vremove != 0 {
 				id, vremove = vremove, 0
+			} else if len(vremoveQ) > 0 {
+				id, vremoveQ = vremoveQ[0], vremoveQ[1:]
 			}
 			var e error
 			rpan := catchPanic(func() { e = idx.Remove(*comet.NewVectorNodeWithID(id, nil)) })
@@ -484,6 +505,10 @@ func runVecHistory(r *rand.Rand, p vecParams, o vecHistOpts, t *Trace) *Case {
 					} else {
 						nodes = append(nodes, uint32(700+r.Intn(3)))
 					}
+				}
+				if len(nodes) >= 2 && step%2 == 0 {
+					nodes[len(nodes)-1] = nodes[0] // the same node named twice: two queries, like any two
+					t.Stat("vec.search_repeated_node")
 				}
 				t.Stat("vec.search_with_nodes")
 			}
